@@ -210,6 +210,9 @@ func (g *gen) sFunc(fc *fctx) []Stmt {
 	if g.feat("closure") && g.feat("shadow") && g.ch(12) == 0 {
 		return g.sShadowedUpvalueCapture(fc)
 	}
+	if g.feat("closure") && g.ch(10) == 0 {
+		return g.sNameForms(fc)
+	}
 	g.use("closure")
 	if g.feat("factory") && g.ch(3) == 0 && fc.level < 2 {
 		return g.sFactory(fc)
@@ -1810,4 +1813,137 @@ func (r *subStream) Choose(n int) int {
 	z = (z ^ (z >> 27)) * 0x94d049bb133111eb
 	z ^= z >> 31
 	return int(z % uint64(n))
+}
+
+// sNameForms: three places where a name is bound or looked up in a less common way.
+//   - `function name() ... end` as a statement, where name is a local of the same function, of a function one to
+//     three levels out, or a global;
+//   - `local a, b = function ... a ... end, a`: the names declared by the statement are not yet in scope on its
+//     right-hand side, so `a` there is the variable of the same name declared earlier;
+//   - debug.getupvalue / debug.setupvalue applied, from the main thread, to a closure whose variable lives in a
+//     suspended coroutine.
+func (g *gen) sNameForms(fc *fctx) []Stmt {
+	g.cost(40)
+	def := func(name string, body []Stmt, params ...string) *Local {
+		g.prog.NFuncs++
+		return &Local{Names: []string{name}, Exprs: []Expr{Func{&FuncDef{ID: g.prog.NFuncs, Params: params, Body: body}}}}
+	}
+	form := g.ch(3)
+	if form == 2 && !g.feat("coroutine") {
+		form = g.ch(2)
+	}
+	switch form {
+	case 0:
+		h, t1, t2, r := g.fresh("h"), g.fresh("t"), g.fresh("t"), g.fresh("r")
+		levels := g.ch(5) // 0-3: the local is that many functions out; 4: there is no local, the name is a global
+		g.use("function_statement_level_" + map[int]string{0: "0", 1: "1", 2: "2", 3: "3", 4: "global"}[levels])
+		g.prog.NFuncs++
+		k := float64(7 + g.ch(20))
+		inner := []Stmt{&FuncStmt{Name: h, F: &FuncDef{ID: g.prog.NFuncs, Body: []Stmt{&Return{Exprs: []Expr{Num{k}}}}}}}
+		n := levels
+		if n == 4 {
+			n = 1 + g.ch(2)
+		}
+		for i := 0; i < n; i++ {
+			f, x := g.fresh("F"), g.fresh("x")
+			body := append([]Stmt{}, inner...)
+			if i == 0 {
+				body = append(body, &Return{Exprs: []Expr{Num{0}}})
+			}
+			inner = []Stmt{def(f, body), &Call{Names: []string{x}, Fn: Var{f}}}
+			if i < n-1 {
+				inner = append(inner, &Return{Exprs: []Expr{Var{x}}})
+			}
+		}
+		var blk []Stmt
+		if levels != 4 {
+			blk = append(blk, &Local{Names: []string{h}, Exprs: []Expr{Num{1}}})
+		}
+		blk = append(blk, inner...)
+		blk = append(blk, &Call{Names: []string{t1}, Fn: Var{"type"}, Args: []Expr{Var{h}}})
+		if g.ch(2) == 0 {
+			blk = append(blk, &If{Conds: []Expr{Bin{"==", Var{t1}, Str{"function"}}}, Blocks: [][]Stmt{{&Call{Targets: []Expr{Var{t1}}, Fn: Var{h}}}}})
+		}
+		blk = append(blk, &Call{Fn: Var{"emit"}, Args: []Expr{Str{"fs"}, Var{t1}}})
+		out := []Stmt{&Do{Body: blk},
+			// outside the block the name is a global
+			&Call{Names: []string{t2}, Fn: Var{"type"}, Args: []Expr{Var{h}}},
+			&Call{Fn: Var{"emit"}, Args: []Expr{Str{"fs2"}, Var{t2}}},
+			&Assign{Targets: []Expr{Var{h}}, Exprs: []Expr{Nil{}}}}
+		_ = r
+		return []Stmt{&Do{Body: out}}
+	case 1:
+		g.use("local_list_with_function_first")
+		a, b, c, r1, r2 := g.fresh("a"), g.fresh("b"), g.fresh("c"), g.fresh("r"), g.fresh("r")
+		k := float64(3 + g.ch(30))
+		g.prog.NFuncs++
+		// the function reads (and writes) the outer a, and so does the second initialiser
+		fd := &FuncDef{ID: g.prog.NFuncs, Body: []Stmt{
+			&Assign{Targets: []Expr{Var{a}}, Exprs: []Expr{Bin{"+", Var{a}, Num{1}}}}, &Return{Exprs: []Expr{Var{a}}}}}
+		names := []string{a, b}
+		rest := []Expr{Bin{"+", Var{a}, Num{100}}}
+		if g.ch(2) == 0 {
+			names = append(names, c)
+			rest = append(rest, Var{a})
+		}
+		probe := []Stmt{
+			&Call{Names: []string{r1}, Fn: Var{a}},
+			&Call{Names: []string{r2}, Fn: Var{a}},
+			&Call{Fn: Var{"emit"}, Args: []Expr{Str{"llf"}, Var{r1}, Var{r2}, Var{b}}},
+		}
+		inner := append([]Stmt{&Local{Names: names, Exprs: append([]Expr{Func{fd}}, rest...)}}, probe...)
+		var out []Stmt
+		out = append(out, &Local{Names: []string{a}, Exprs: []Expr{Num{k}}})
+		switch g.ch(3) {
+		case 0: // same block: the new a shadows the old one from the next statement on
+			out = append(out, inner...)
+		case 1: // inner block: the outer a is visible again afterwards
+			out = append(out, &Do{Body: inner}, &Call{Fn: Var{"emit"}, Args: []Expr{Str{"llf2"}, Var{a}}})
+		default: // inside a function: the outer a is an upvalue there
+			f, x := g.fresh("F"), g.fresh("x")
+			body := append(append([]Stmt{}, inner...), &Return{Exprs: []Expr{Num{0}}})
+			out = append(out, def(f, body), &Call{Names: []string{x}, Fn: Var{f}}, &Call{Fn: Var{"emit"}, Args: []Expr{Str{"llf2"}, Var{a}}})
+		}
+		return []Stmt{&Do{Body: out}}
+	default:
+		g.use("debug_upvalue_across_threads")
+		co, v, cl, body := g.fresh("co"), g.fresh("v"), g.fresh("cl"), g.fresh("B")
+		ok, got, n1, v1, n2, ok2, r2, junk := g.fresh("ok"), g.fresh("cl"), g.fresh("n"), g.fresh("v"), g.fresh("n"), g.fresh("ok"), g.fresh("r"), g.fresh("j")
+		k := float64(10 + g.ch(50))
+		g.prog.NFuncs++
+		clDef := &FuncDef{ID: g.prog.NFuncs, Body: []Stmt{
+			&Assign{Targets: []Expr{Var{v}}, Exprs: []Expr{Bin{"+", Var{v}, Num{1}}}}, &Return{Exprs: []Expr{Var{v}}}}}
+		var cb []Stmt
+		// some locals first, so that the variable's register index differs from anything at that index in the main thread
+		for i, n := 0, g.ch(4); i < n; i++ {
+			cb = append(cb, &Local{Names: []string{g.fresh("p")}, Exprs: []Expr{Num{float64(900 + i)}}})
+		}
+		y := g.fresh("y")
+		cb = append(cb,
+			&Local{Names: []string{v}, Exprs: []Expr{Num{k}}},
+			&Local{Names: []string{cl}, Exprs: []Expr{Func{clDef}}},
+			&Call{Names: []string{y}, Fn: Var{"coyield"}, Args: []Expr{Var{cl}}},
+			&Call{Fn: Var{"emit"}, Args: []Expr{Str{"dbg-co"}, Var{v}}},
+			&Return{Exprs: []Expr{Var{v}}})
+		out := []Stmt{
+			def(body, cb),
+			&Call{Names: []string{co}, Fn: Var{"cocreate"}, Args: []Expr{Var{body}}},
+			&Call{Names: []string{ok, got}, Fn: Var{"coresume"}, Args: []Expr{Var{co}}},
+			&Local{Names: []string{junk}, Exprs: []Expr{Num{4242}}},
+			&Call{Names: []string{n1, v1}, Fn: Var{"dgetup"}, Args: []Expr{Var{got}, Num{1}}},
+			&Call{Names: []string{n2}, Fn: Var{"dsetup"}, Args: []Expr{Var{got}, Num{1}, Num{k + 500}}},
+			&Call{Fn: Var{"emit"}, Args: []Expr{Str{"dbg"}, Var{n1}, Var{v1}, Var{n2}, Var{junk}}},
+			&Call{Names: []string{ok2, r2}, Fn: Var{"coresume"}, Args: []Expr{Var{co}}},
+			&Call{Fn: Var{"emit"}, Args: []Expr{Str{"dbg2"}, Var{ok2}, Var{r2}, Var{junk}}},
+		}
+		if g.ch(2) == 0 {
+			// once more after the coroutine has ended: the variable is closed now
+			n3, v3 := g.fresh("n"), g.fresh("v")
+			out = append(out,
+				&Call{Names: []string{n3}, Fn: Var{"dsetup"}, Args: []Expr{Var{got}, Num{1}, Num{k + 700}}},
+				&Call{Names: []string{n3 + "b", v3}, Fn: Var{"dgetup"}, Args: []Expr{Var{got}, Num{1}}},
+				&Call{Fn: Var{"emit"}, Args: []Expr{Str{"dbg3"}, Var{n3}, Var{v3}}})
+		}
+		return []Stmt{&Do{Body: out}}
+	}
 }
